@@ -90,6 +90,11 @@ func main() {
 		os.Exit(mon.RunMonitor(w.Property, w.Tier, w.Seed, only))
 	case "child":
 		os.Exit(mon.Child(os.Args[2:]))
+	case "shard": // shard <id> <tier> <seed> <k> <n> <dir>
+		sd, _ := strconv.ParseUint(os.Args[4], 10, 64)
+		k, _ := strconv.Atoi(os.Args[5])
+		n, _ := strconv.Atoi(os.Args[6])
+		os.Exit(mon.RunShard(os.Args[2], os.Args[3], sd, k, n, os.Args[7]))
 	default:
 		fmt.Println("unknown command", os.Args[1])
 		os.Exit(2)
